@@ -880,7 +880,7 @@ func checkTestdata(res *lib.Result, drv *lib.Drv) {
 			res.Note(fmt.Sprintf("testdata %s: real Decrypt with identity unwrap fails (%v/%v); skipped", filepath.Base(fn), derr, dterm))
 			continue
 		}
-		if len(doc) > 3*65552+400 {
+		if len(doc) > 8*65552+400 {
 			res.Hit("testdata.skipped-large")
 			continue
 		}
